@@ -547,6 +547,17 @@ def R2(ctx, rule="R2", strict_order=True):
                           "an id comparison other than `a != b` of the two endpoints guards the insertion")
                 n_ok += 1
                 continue
+            if p2 in ("std::mem::replace", "std::mem::take") and t2["dest"]["ty"] == "bool":
+                # `mem::replace(&mut seen[b], true)`: test-and-set of the inner element's flag
+                ts = seen_test_and_set(ctx, b, t2, cm)
+                vals = {pc[sym] for pc in cm["pcs"] if sym in pc}
+                if ts and vals == {"0"}:
+                    ok_reset, why_reset = seen_flag_reset(ctx, cm)
+                    ctx.check(ok_reset, rule, "seen-flag", m.where(b, sym[1]),
+                              "per-iteration seen flag (test-and-set by mem::replace on a local Vec<bool>) guards the pair and is reset at the start of every outer iteration",
+                              "the seen flags guarding the pair are not reset for every outer element (%s): a pair examined for one element is skipped for all others" % why_reset)
+                    n_ok += 1
+                    continue
             if p2 == HAS_PATH:
                 # same endpoints, same order, same graph
                 a2 = strip_refs(expr_operand(b, t2["args"][1]))
@@ -600,20 +611,51 @@ def R2(ctx, rule="R2", strict_order=True):
     ctx.floor(rule, 2, "guards between pair enumeration and insertion")
 
 
+def seen_test_and_set(ctx, b, t2, cm):
+    """t2 = mem::replace(&mut FLAGS[b.index()], true) on a Vec<bool>/[bool] of flags -> the flag allocation keys, else None"""
+    fl = ctx.model.flow
+    if len(t2["args"]) < 2:
+        return None
+    val = strip_refs(expr_operand(b, t2["args"][1]))
+    if not (val.kind == "const" and str(val[1]) in ("1", "true")):
+        return None
+    pe = strip_refs(expr_operand(b, t2["args"][0]))
+    er = elem_read(pe)
+    if er is None and pe.kind == "call" and pe[1] == "std::ops::IndexMut::index_mut":
+        er = (pe[2][0], pe[2][1])
+    if er is None:
+        return None
+    ie = node_index_arg(strip_refs(er[1]))
+    if ie is None or strip_refs(ie) != cm["b"]:
+        return None
+    keys = {(s_[1], s_[2]) for s_ in sources_of_expr(ctx, b, strip_refs(er[0])) if s_.kind == "alloc" and s_[4] == "std::vec::from_elem"}
+    return keys or None
+
+
 def seen_flag_reset(ctx, cm):
     """The Vec<bool> of seen flags is cleared (`fill(false)`) in the outer
     per-element closure before the inner enumeration starts, or allocated
     inside it."""
     m, fl = ctx.model, ctx.model.flow
     b = cm["site"][0]
+    site_body = b
     flags = set()
     for st in stores_through_index(b):
         if st["value"].kind == "const":
             for s_ in fl.sources_operand(b, st["container"]):
                 if s_.kind == "alloc" and s_[4] == "std::vec::from_elem":
                     flags.add((s_[1], s_[2]))
+    for rbb, rt in b.calls():
+        if callee_path(rt) in ("std::mem::replace", "std::mem::take") and rt["dest"]["ty"] == "bool":
+            flags |= (seen_test_and_set(ctx, b, rt, cm) or set())
     if not flags:
         return False, "seen-flag vector not found"
+    fr = enum_frame(ctx, cm)
+    if fr["body"].id != b.id:
+        # the per-pair work is a private function: the enumeration (and the reset) live in its caller
+        cm = dict(cm)
+        cm["site"] = (fr["body"], fr["bb"], cm["site"][2], cm["site"][3])
+        b = fr["body"]
     uses = fl.closure_uses(b) if b.kind == "closure" else []
     loop_form = None
     if b.kind != "closure":
@@ -640,16 +682,28 @@ def seen_flag_reset(ctx, cm):
                 if p == "std::slice::<impl [T]>::fill":
                     if not is_const(strip_refs(expr_operand(body, t["args"][1])), 0):
                         return False, "the flag vector is filled with `true` in %s: every later candidate of the current element is skipped" % short(body.id)
+                elif p in ctx.fb.bodies:
+                    continue        # a crate-local function: its own body is inspected in this same sweep
                 elif p == "std::ops::IndexMut::index_mut":
                     st = idx_stores.get(bb)
                     if st is None:
+                        # pointer handed to mem::replace(ptr, true): the test-and-set of the inner element
+                        ts_ok = False
+                        for rbb, rt in body.calls():
+                            if callee_path(rt) in ("std::mem::replace",) and rt["dest"]["ty"] == "bool" and body.id == site_body.id:
+                                if seen_test_and_set(ctx, body, rt, cm):
+                                    ts_ok = True
+                        if ts_ok:
+                            continue
                         return False, "flag element borrowed mutably without a recognised store in %s" % short(body.id)
                     ie = node_index_arg(strip_refs(expr_operand(body, st["idx"])))
                     if st["value"].kind == "const" and not is_const(st["value"], 0):
-                        if body.id != b.id or ie is None or strip_refs(ie) != cm["b"]:
+                        if body.id != site_body.id or ie is None or strip_refs(ie) != cm["b"]:
                             return False, "a seen flag other than the inner element's own is set in %s" % short(body.id)
                 elif p in ("std::ops::DerefMut::deref_mut", "std::vec::Vec::<T, A>::as_mut_slice", "std::convert::AsMut::as_mut"):
                     continue
+                elif p == "std::mem::replace" and body.id == site_body.id and seen_test_and_set(ctx, body, t, cm):
+                    continue        # the test-and-set of the inner element's own flag
                 else:
                     return False, "the flag vector is mutated by %s in %s" % (p, short(body.id))
     if loop_form is not None:
@@ -680,6 +734,15 @@ def R2_chain_filters(ctx, rule, cm):
     """filters on the two enumerations may only compare the two ids"""
     m, fl = ctx.model, ctx.model.flow
     b, bb, t, p = cm["site"]
+    fr = enum_frame(ctx, cm)
+    if fr["body"].id != b.id:
+        # per-pair helper: the call must be unconditional in the enumerating body, which is examined from there on
+        gs = [fmt_expr(strip_refs(de), fr["body"]) for sb, de, vals in cond_guards(fr["body"], fr["bb"])
+              if not ((loop_region(ctx, fr["body"], fr["bb"]) or {}).get("switch_bb") == sb)]
+        ctx.check(not gs, rule, "helper-call|%s" % short(fr["body"].id), m.where(fr["body"], fr["bb"]),
+                  "the per-pair function is called for every enumerated pair",
+                  "the per-pair function is called only under %s" % gs[:3])
+        b, bb = fr["body"], fr["bb"]
     x = b
     # `for` loops around the insertion in its own body
     skip = ()
@@ -1096,6 +1159,30 @@ def P1(ctx, rule="P1"):
                                     l1 = {(x[1], x[2]) for x in sources_of_expr(ctx, b, hi_[2][0]) if x.kind == "alloc" and not x[3]}
                                     l2 = {(x[1], x[2]) for x in sources_of_expr(ctx, b, strip_refs(expr_operand(b, t["args"][0]))) if x.kind == "alloc" and not x[3]}
                                     ok = bool(l1) and l1 == l2
+                    if not ok and srcs:
+                        # ... or a closure parameter fed by `(0..list.len())`: every source is that range / its bounds
+                        l2 = {(x[1], x[2]) for x in sources_of_expr(ctx, b, strip_refs(expr_operand(b, t["args"][0]))) if x.kind == "alloc" and not x[3]}
+                        okr = True
+                        seen_range = False
+                        for s2 in srcs:
+                            if s2.kind == "agg" and s2[4] == "std::ops::Range":
+                                st2 = ctx.fb.bodies[s2[1]].blocks[s2[2]]["stmts"][s2[3]]
+                                bx2 = ctx.fb.bodies[s2[1]]
+                                lo_ = strip_refs(expr_operand(bx2, st2["rv"]["ops"][0]))
+                                hi_ = strip_refs(expr_operand(bx2, st2["rv"]["ops"][1]))
+                                l1 = {(x[1], x[2]) for x in sources_of_expr(ctx, bx2, hi_[2][0]) if x.kind == "alloc" and not x[3]} \
+                                    if hi_.kind == "call" and hi_[1].split("::")[-1] == "len" and hi_[2] else set()
+                                if is_const(lo_, 0) and l1 and l1 == l2:
+                                    seen_range = True
+                                else:
+                                    okr = False
+                            elif s2.kind == "const" and str(s2[1]) == "0":
+                                continue
+                            elif s2.kind == "alloc" and s2[4].split("::")[-1] == "len":
+                                continue        # the range's upper bound (never yielded itself)
+                            else:
+                                okr = False
+                        ok = okr and seen_range
                     why = "start of `%s` comes from %s" % (fmt_expr(rng, b), [fmt_src(x) for x in srcs][:3])
                 ctx.check(ok, rule, "slice|%s" % short(b.id), where,
                           "slice taken as list[i..] with i an index produced by enumerate(): always within bounds",
@@ -1119,10 +1206,34 @@ def augment_body(ctx):
     cm = conflict_model(ctx)
     if "error" in cm:
         return None
-    b = cm["site"][0]
+    b = enum_frame(ctx, cm)["body"]
     while b.kind == "closure" and b.parent:
         b = ctx.fb.bodies[b.parent]
     return b
+
+
+def enum_frame(ctx, cm):
+    """The body in which the pair (a, b) is enumerated.  Normally the body of
+    the insertion itself; when the per-pair work was extracted into a private
+    function taking the two ids as parameters, the (single) call site of that
+    function, with a and b rewritten to the caller's argument expressions."""
+    fl, fb = ctx.model.flow, ctx.fb
+    b, bb, t, p = cm["site"]
+    a_e, b_e = cm["a"], cm["b"]
+    hops = 0
+    while b.kind == "fn" and loop_region(ctx, b, bb) is None and a_e.kind == "arg" and b_e.kind == "arg" and hops < 3:
+        hops += 1
+        reach = {x.id for x in build_reach(ctx)}
+        callers = [(cb, cbb, ct) for (cb, cbb, ct) in fl.call_sites().get(b.id, []) if cb.id in reach and not fb.is_test_body(cb)]
+        if len(callers) != 1:
+            break
+        cb, cbb, ct = callers[0]
+        args = [strip_refs(expr_operand(cb, x)) for x in ct["args"]]
+        if not (1 <= a_e[1] <= len(args) and 1 <= b_e[1] <= len(args)):
+            break
+        a_e, b_e = args[a_e[1] - 1], args[b_e[1] - 1]
+        b, bb = cb, cbb
+    return {"body": b, "bb": bb, "a": a_e, "b": b_e}
 
 
 def D1(ctx, rule="D1"):
@@ -1132,6 +1243,15 @@ def D1(ctx, rule="D1"):
         ctx.unverifiable(rule, "augment", "-", "augmenter not found")
         return
     sorts = [(bb, t) for bb, t in ab.calls() if callee_path(t) in STABLE_SORTS + UNSTABLE_SORTS]
+    if not sorts:
+        # the sorted list is produced by a private helper of the augmenter
+        for hid in sorted(m.reach_calls(ab.id)):
+            hb = ctx.fb.bodies[hid]
+            hs = [(bb, t) for bb, t in hb.calls() if callee_path(t) in STABLE_SORTS + UNSTABLE_SORTS]
+            if hs and hb.kind == "fn":
+                ab = hb
+                sorts = hs
+                break
     if len(sorts) != 1:
         ctx.bad(rule, "sort-count", m.where(ab), "expected exactly one sort of the id list in the augmenter, found %d" % len(sorts))
         return
@@ -1220,6 +1340,13 @@ def D2(ctx, rule="D2"):
         return
     b, bb, t, p = cm["site"]
     where = m.where(b, bb)
+    fr = enum_frame(ctx, cm)
+    if fr["body"].id != b.id:
+        # per-pair helper: go on in the body that enumerates the pairs
+        cm = dict(cm)
+        cm["a"], cm["b"] = fr["a"], fr["b"]
+        cm["site"] = (fr["body"], fr["bb"], t, p)
+        b, bb = fr["body"], fr["bb"]
     # loop form: two nested `for` loops in the augmenter's own body
     lr_in = loop_region(ctx, b, bb) if b.kind != "closure" else None
     lr_out = loop_region(ctx, b, bb, skip_headers=(lr_in["header"],)) if lr_in else None
@@ -1280,6 +1407,19 @@ def D2(ctx, rule="D2"):
                 any(s.kind == "alloc" and not s[3] for s in srcl)
             ok_outer = idx_ok and a_ok and same_list and b_ok
             why = "index from enumerate: %s, `from` is outer element: %s, same list: %s, `to` is inner element: %s" % (idx_ok, a_ok, same_list, b_ok)
+        elif [c for c in ochain if c[0] == "leaf:agg" and c[2][2] == "std::ops::Range"]:
+            # `(0..list.len()).rev().for_each(|index| { let a = list[index]; list[index..].for_each(|b| ..) })`
+            rl = [c for c in ochain if c[0] == "leaf:agg" and c[2][2] == "std::ops::Range"][0]
+            ae = None
+            ui = upvar_index(cm["a"])
+            if ui is not None:
+                sites = fl.closure_sites().get(b.id, [])
+                if len(sites) == 1 and sites[0][0].id == ob.id:
+                    ae = strip_refs(expr_operand(ob, sites[0][3]["rv"]["ops"][ui]))
+            b_ok = cm["b"].kind == "arg" and cm["b"][1] == 2
+            D2_index_outer(ctx, rule, cm, None, None, rl, names.count("std::iter::Iterator::rev"), outer_idx, list_inner,
+                           frame=ob, a_e=ae if ae is not None else E(("unknown", "a")), b_e=cm["b"], outer_item=E(("arg", 2)), inner_item_ok=b_ok)
+            return
         else:
             why = "outer iteration has no enumerate: chain %s" % names
     if len(outer_uses) == 1 and "std::iter::Iterator::enumerate" in names:
